@@ -48,6 +48,8 @@ def scenarios(run):
         for ir in (0, 1):
             for comp in comps:
                 add(Q.cfg("stream", Q.S("hdr", "eos"), plan=h, init_rows=ir), compression=comp)
+            # blocks big enough for the zero-copy path to matter (a column chunk of several hundred bytes)
+            add(Q.cfg("stream", Q.S("hdr", "eos"), plan=h, init_rows=ir), compression="disabled", rows_per=[24, 40, 130][nh % 3])
         if nh % 3 == run.seed % 3:
             add(Q.cfg("stream", Q.S("hdr", "prog", "eos"), plan=h, init_rows=rng.choice([0, 1]), need_info=False),
                 compression=rng.choice(Q.COMPRESSIONS), sched=Q.random_sched(rng, 12, letters="SSSRRVVT", p_cancel=0))
@@ -57,7 +59,7 @@ def scenarios(run):
         n = rng.randrange(3, 13)
         h = [Q.Pl(rng.choice(OPS), "nil") for _ in range(n)] + [Q.Pl(rng.choice(OPS), rng.choice(TERM))]
         add(Q.cfg("stream", rng.choice(Q.INSERT_OK), plan=h, init_rows=rng.choice([0, 1]), need_info=rng.random() < 0.8),
-            compression=rng.choice(Q.COMPRESSIONS), rev=rng.choice(Q.REVS),
+            compression=rng.choice(Q.COMPRESSIONS + ["disabled"] * 3), rev=rng.choice(Q.REVS), rows_per=rng.choice([0, 0, 17, 64, 300, 600]),
             sched=("" if rng.random() < 0.5 else Q.random_sched(rng, rng.randrange(1, 30), letters="SSSSRRWVVT", p_cancel=0)))
     # plain (non-streamed) insert, with and without schema exchange
     for comp in Q.COMPRESSIONS:
